@@ -111,4 +111,60 @@ def measure : Pipe → Nat
   | [] => 0
   | (b, _) :: rest => b.length * (rest.length + 1) + measure rest
 
+/-! ## Part 3: a network of bounded buffers (the archiver's channel network)
+
+`Archiver::archive` (`archiver.rs`) is not a line: the `parallel_map` workers of the file archiver hand every chunk to
+the data packer's channel AND their processed item to the ordered output queue; the main thread (`tree_archiver.add`)
+consumes that queue and hands tree blobs to the tree packer's channel; each `Packer` is the line of part 2 ending in
+its file-writer actor.  `Net` is any such network: nodes in an order in which every hand-over goes downstream
+(`route node item = some later-node`), `none` = the item leaves the network at this node (written to the backend, filtered
+out as known, or consumed by the tree archiver).  Items are opaque numbers; a node that turns one item into several
+(a file into chunks) is covered because the progress theorem holds for EVERY state. -/
+
+structure Net where
+  /-- capacity of every node's buffer, upstream nodes first -/
+  caps : List Nat
+  /-- where the oldest item of a node goes next -/
+  route : Nat → Nat → Option Nat
+
+/-- buffer contents per node -/
+abbrev NSt := List (List Nat)
+
+def getBuf (s : NSt) (i : Nat) : List Nat := s[i]?.getD []
+
+/-- node `i` hands its oldest item on (if the receiving buffer has room) or lets it leave the network -/
+def moveN (net : Net) (s : NSt) (i : Nat) : Option NSt :=
+  match getBuf s i with
+  | [] => none
+  | x :: t =>
+    match net.route i x with
+    | none => some (s.set i t)
+    | some j =>
+      if (getBuf s j).length < net.caps.getD j 0 then some ((s.set i t).set j (getBuf s j ++ [x])) else none
+
+/-- weighted number of hops still possible -/
+def measureN : NSt → Nat
+  | [] => 0
+  | b :: rest => b.length * (rest.length + 1) + measureN rest
+
+/-- every hand-over goes strictly downstream to an existing node; every buffer can hold an item -/
+def Net.WF (net : Net) (n : Nat) : Prop :=
+  (∀ i x j, net.route i x = some j → i < j ∧ j < n) ∧ ∀ j, j < n → 0 < net.caps.getD j 0
+
+/-- The archiver's network.  Nodes: 0 source → `TreeIterator` → `Parent`; 1 items inside the `parallel_map` workers
+(`FileArchiver::process`; even items = processed items, odd items = chunks); 2 ordered output + readahead; 3 main thread
+(`tree_archiver.add`; odd = a finished tree blob, even = consumed); 4–9 data packer (`bounded(0)` hand-over + readahead,
+early filters + readahead, `process_data` workers, readahead + late filter, `add_raw`/open pack, `bounded(1)` file-writer
+queue … write + index); 10–15 tree packer likewise. -/
+def archiverNet : Net :=
+  { caps := [1, 4, 1, 1, 1, 1, 4, 1, 1, 1, 1, 1, 4, 1, 1, 1]
+    route := fun i x =>
+      if i = 0 then some 1
+      else if i = 1 then (if x % 2 = 1 then some 4 else some 2)
+      else if i = 2 then some 3
+      else if i = 3 then (if x % 2 = 1 then some 10 else none)
+      else if i = 9 ∨ i = 15 then none                      -- the file writers always complete
+      else if 4 ≤ i ∧ i < 15 then (if x % 3 = 0 then none else some (i + 1))   -- filters may drop a known blob
+      else none }
+
 end Rustic.Streamer
